@@ -288,6 +288,37 @@ func (vc *FuncVC) applyContract(s *State, cl *callee, ord int, site ssa.Instruct
 		}
 	}
 	c := cl.c
+	if c == nil && vc.defaultExternal(cl) {
+		// unspecified function outside the repository whose receiver type has no ghost model: its
+		// results are arbitrary and it may write only through its pointer / slice arguments
+		vc.assumedUsed["unspecified external call "+cl.name+": results arbitrary; writes only what its arguments point to; no effect on ghost state"] = true
+		for _, a := range cl.args {
+			switch {
+			case a.Sort == "Slice" && a.GoT != nil:
+				if st, ok := a.GoT.Underlying().(*types.Slice); ok {
+					es := vc.ss.sortOf(st.Elem())
+					is := "(Array Int " + es + ")"
+					hs := "(Array Int " + is + ")"
+					h := vc.get(s, "A:"+es, hs)
+					nv := vc.freshConst("ext_arr", is)
+					vc.set(s, "A:"+es, T(hs, fmt.Sprintf("(store %s (s!arr %s) %s)", h.S, a.S, nv.S)))
+					vc.noteWrite("A:" + es)
+				}
+			case a.Sort == "Int" && a.GoT != nil:
+				if pt, ok := a.GoT.Underlying().(*types.Pointer); ok && !isStruct(pt.Elem()) && !isArray(pt.Elem()) {
+					es := vc.ss.sortOf(pt.Elem())
+					hs := "(Array Int " + es + ")"
+					h := vc.get(s, "C:"+es, hs)
+					nv := vc.freshConst("ext_cell", es)
+					vc.set(s, "C:"+es, app(hs, "store", h, a, nv))
+					vc.noteWrite("C:" + es)
+				}
+			}
+		}
+		res := mkResults()
+		vc.siteClauses(s, nil, ss, siteKey, cl, res, pos)
+		return res
+	}
 	if c == nil {
 		// no contract: reported as an undischargeable obligation (never counted as proved); the call is
 		// then treated as effect-free so that one missing contract gives one report, not a cascade.
@@ -939,4 +970,45 @@ func (vc *FuncVC) inlineCall(s *State, f *ssa.Function, ci *closureInfo, args []
 	s.vars = m.vars
 	s.pc = m.pc
 	return res
+}
+
+// defaultExternal: may a contract-less callee be given the default external contract? Only functions
+// and interface methods declared outside the repository, and only if no specification models state
+// for their receiver type (e.g. http.Header, bytes.Buffer have ghost models: every method needs a spec).
+func (vc *FuncVC) defaultExternal(cl *callee) bool {
+	var pkgPath, recv string
+	if cl.fn != nil {
+		pkg := cl.fn.Pkg
+		for p := cl.fn; pkg == nil && p != nil; p = p.Parent() {
+			pkg = p.Pkg
+		}
+		if pkg == nil {
+			return false
+		}
+		pkgPath = pkg.Pkg.Path()
+		if r := cl.fn.Signature.Recv(); r != nil {
+			recv = normType(r.Type())
+		}
+	} else if cl.isIface && cl.recvT != nil {
+		recv = normType(cl.recvT)
+		if n, ok := cl.recvT.(*types.Named); ok && n.Obj().Pkg() != nil {
+			pkgPath = n.Obj().Pkg().Path()
+		} else {
+			return false
+		}
+	} else {
+		return false
+	}
+	if strings.HasPrefix(pkgPath, modPrefix) {
+		return false
+	}
+	if recv != "" {
+		base := strings.TrimPrefix(recv, "*")
+		for k := range vc.eng.specs.Contracts {
+			if strings.HasPrefix(k, "(*"+base+").") || strings.HasPrefix(k, "("+base+").") || strings.HasPrefix(k, "iface "+base+".") {
+				return false
+			}
+		}
+	}
+	return true
 }
